@@ -1334,7 +1334,10 @@ ws_http_cb_dialer(nni_ws *ws, nni_aio *aio)
 
 	d = ws->dialer;
 	nni_mtx_lock(&d->mtx);
+	// The user aio is owned under ws->mtx (see ws_dial_cancel).
+	nni_mtx_lock(&ws->mtx);
 	uaio = ws->useraio;
+	nni_mtx_unlock(&ws->mtx);
 
 	// We have two steps.  In step 1, we just sent the request,
 	// and need to retrieve the reply.  In step two we have
@@ -1408,11 +1411,19 @@ ws_http_cb_dialer(nni_ws *ws, nni_aio *aio)
 		}
 	}
 
-	// At this point, we are in business!
-	nni_list_remove(&d->wspend, ws);
-	ws->ready   = true;
+	// At this point, we are in business!  Claim the user aio; a
+	// cancellation may have completed it in the meantime.
+	nni_mtx_lock(&ws->mtx);
+	uaio        = ws->useraio;
 	ws->useraio = NULL;
-	ws->dialer  = NULL;
+	nni_mtx_unlock(&ws->mtx);
+	if (uaio == NULL) {
+		rv = NNG_ECANCELED;
+		goto err;
+	}
+	nni_list_remove(&d->wspend, ws);
+	ws->ready  = true;
+	ws->dialer = NULL;
 	nni_aio_set_output(uaio, 0, ws);
 	nni_aio_finish(uaio, 0, 0);
 	if (nni_list_empty(&d->wspend)) {
@@ -1422,8 +1433,11 @@ ws_http_cb_dialer(nni_ws *ws, nni_aio *aio)
 	return;
 err:
 	nni_list_remove(&d->wspend, ws);
+	nni_mtx_lock(&ws->mtx);
+	uaio        = ws->useraio;
 	ws->useraio = NULL;
-	ws->dialer  = NULL;
+	nni_mtx_unlock(&ws->mtx);
+	ws->dialer = NULL;
 	if (nni_list_empty(&d->wspend)) {
 		nni_cv_wake(&d->cv);
 	}
@@ -2236,8 +2250,18 @@ ws_conn_cb(void *arg)
 	return;
 
 err:
+	ws->useraio = NULL;
 	nni_aio_finish_error(uaio, rv);
 	nni_mtx_unlock(&ws->mtx);
+	nni_mtx_lock(&d->mtx);
+	if (nni_list_node_active(&ws->node)) {
+		nni_list_remove(&d->wspend, ws);
+		ws->dialer = NULL;
+		if (nni_list_empty(&d->wspend)) {
+			nni_cv_wake(&d->cv);
+		}
+	}
+	nni_mtx_unlock(&d->mtx);
 	ws_reap(ws);
 }
 
